@@ -10,9 +10,10 @@ PROP = dict(
          '(Debug backend: at least one re-initialisation); distinct by hash of the case x backend',
     floor=dict(quick=150, thorough=1500),
     parallel=4,
-    assumptions=TRUST + ['one calling thread (external callers would legitimately add their own threads under TBB)', 'schedule()d work is not counted'],
+    assumptions=TRUST + ['loops are issued by one thread (external callers would legitimately add their own threads under TBB); a second thread only re-initialises', 'schedule()d work is not counted'],
     bins=[rc('C13_threads_tbb', 'harness/C13_threads.cpp', 'tbb-asan'),
           rc('C13_threads_omp', 'harness/C13_threads.cpp', 'omp-asan'),
           rc('C13_threads_internal', 'harness/C13_threads.cpp', 'internal-asan'),
           rc('C13_threads_debug', 'harness/C13_threads.cpp', 'debug-asan')],
 )
+PROP['rule'] += ' Round-4 extension: initialisations may also ask for flush-to-zero; on the TBB and OpenMP back ends a second thread may keep re-initialising with the SAME count while the loops of a step run (the bound and the reported count must hold throughout).'
